@@ -191,3 +191,53 @@ Example removal_example :
   refs_to_columns (rm_columns [9] c09_before) = refs_to_columns c09_before /\
   In 4 (refs_to_columns c09_before) /\ ~ In 4 (refs_to_columns (rm_columns [4] c09_before)).
 Proof. vm_compute. split; [reflexivity|]. split; [tauto | intuition discriminate]. Qed.
+
+(* ---------------------------------------------------------------------------------------------- *)
+(* the code as regenerated from /repo on this run (GristGen.MetaCascade_gen, harness/mc2v_gen.py) *)
+Require Import Grist.Model.MetaCascadePlan Grist.Model.MetaCascadePlanRef GristGen.MetaCascade_gen
+  Grist.Proofs.MetaCascade_bridge.
+
+(* bridging obligations: each regenerated definition is the model's *)
+Theorem C09_code_auto_loop_bridge : forall fuel m, gen_auto_fix fuel m = auto_fix fuel m.
+Proof. exact gen_auto_fix_is_auto_fix. Qed.
+
+Theorem C09_code_goa_bridge : forall prior infos, gen_goa prior infos = model_goa prior infos.
+Proof. exact gen_goa_is_model. Qed.
+
+Theorem C09_code_plans_bridge :
+  gen_plan_removeTableRecords = plan_removeTableRecords /\ gen_plan_doRemoveColumns = plan_doRemoveColumns /\
+  gen_plan_removeColumnRecords = plan_removeColumnRecords /\ gen_plan_removeViewRecords = plan_removeViewRecords /\
+  gen_plan_removeViewSectionRecords = plan_removeViewSectionRecords /\
+  gen_plan_doRemoveViewSectionRecords = plan_doRemoveViewSectionRecords /\
+  gen_plan_removeViewSectionFieldRecords = plan_removeViewSectionFieldRecords /\
+  gen_plan_doBulkRemoveRecord = plan_doBulkRemoveRecord /\
+  gen_plan_UpdateSummaryViewSection = plan_UpdateSummaryViewSection /\
+  gen_plan_DetachSummaryViewSection = plan_DetachSummaryViewSection /\
+  gen_plan_apply_auto_removes = plan_apply_auto_removes.
+Proof.
+  exact (conj plan_removeTableRecords_same (conj plan_doRemoveColumns_same (conj plan_removeColumnRecords_same
+        (conj plan_removeViewRecords_same (conj plan_removeViewSectionRecords_same
+        (conj plan_doRemoveViewSectionRecords_same (conj plan_removeViewSectionFieldRecords_same
+        (conj plan_doBulkRemoveRecord_same (conj plan_UpdateSummaryViewSection_same
+        (conj plan_DetachSummaryViewSection_same plan_apply_auto_removes_same)))))))))).
+Qed.
+
+(* the property, with the end-of-bundle loop as the code has it *)
+Definition run_bundle_code (os : list op) (m : meta) : res meta :=
+  bind (steps os m) (fun m1 => gen_auto_fix (fuel_of m1) m1).
+
+Theorem C09_code_cascade_preserves : forall os m m',
+  RefsResolve m = true -> run_bundle_code os m = Ok m' -> RefsResolve m' = true.
+Proof.
+  intros os m m' HR H. apply (run_bundle_preserves os m m' HR). unfold run_bundle, run_bundle_code in *.
+  destruct (steps os m) as [m1| |]; unfold bind in *; try exact H.
+Qed.
+
+Theorem C09_code_auto_removes_resolve : forall fuel m m',
+  refs_core m = true -> gen_auto_fix fuel m = Ok m' -> RefsResolve m' = true.
+Proof. intros fuel m m' HR H. rewrite gen_auto_fix_is_auto_fix in H. apply (auto_fix_resolves fuel m m' HR H). Qed.
+
+(* _get_or_add_columns as the code has it hands back one column per requested column: what the regrouping
+   model relies on when it moves or deletes every field of the section *)
+Theorem C09_code_goa_complete : forall prior infos, goa_yields (gen_goa prior infos) = List.length infos.
+Proof. exact gen_goa_yields. Qed.
